@@ -367,3 +367,43 @@ pub fn count_small(max_len: usize) -> usize {
     }
     t
 }
+
+/// (prefix of lower-case ASCII) + (binary run with length near the 249/250 length-field edge) + (short mixed tail):
+/// the total length sweeps through every residue relative to the symbol capacities
+pub fn b256_three_part(p: usize, l: usize, t: usize) -> Vec<u8> {
+    let mut v: Vec<u8> = (0..p).map(|i| b'a' + ((i * 7) % 26) as u8).collect();
+    v.extend((0..l).map(|i| 0x80 + ((i * 29 + p) % 120) as u8));
+    v.extend(b"a1234Zq9".iter().take(t));
+    v
+}
+
+/// Three-part family: a Base256 run with a length around the 249/250 length-field edge, then a run of one
+/// class of every length 0..=44, then a tail of 0..=2 characters of any class. Deterministic, enumerable.
+pub const FAMILY_L: [usize; 8] = [249, 250, 251, 252, 253, 254, 255, 256];
+pub const FAMILY_TAILS: usize = 1 + 2 * CORE.len();
+pub fn family_count() -> usize {
+    FAMILY_L.len() * 45 * CORE.len() * FAMILY_TAILS
+}
+pub fn family_case(i: usize) -> Vec<u8> {
+    let mut x = i;
+    let tail = x % FAMILY_TAILS;
+    x /= FAMILY_TAILS;
+    let cls = CORE[x % CORE.len()];
+    x /= CORE.len();
+    let m = x % 45;
+    x /= 45;
+    let l = FAMILY_L[x % FAMILY_L.len()];
+    let mut rng = Rng::new(0xFA111, "three-part-family", i as u64);
+    let mut v: Vec<u8> = (0..l).map(|k| 0x80 + ((k * 31 + m) % 120) as u8).collect();
+    for _ in 0..m {
+        v.push(class_char(&mut rng, cls));
+    }
+    if tail > 0 {
+        let tc = CORE[(tail - 1) % CORE.len()];
+        let tn = 1 + (tail - 1) / CORE.len();
+        for _ in 0..tn {
+            v.push(class_char(&mut rng, tc));
+        }
+    }
+    v
+}
